@@ -14,7 +14,10 @@ case "$VARIANT" in
   plain) FLAGS="-O1" ;;
   san)   FLAGS="-O1 -fsanitize=address,undefined -fno-sanitize-recover=all -fno-omit-frame-pointer" ;;
   tsan)  FLAGS="-O1 -fsanitize=thread" ;;
-  uchar) FLAGS="-O1 -funsigned-char" ;;          # the ABI of ARM / AArch64 / PowerPC / RISC-V / Xtensa: plain char is unsigned
+  uchar) FLAGS="-O1 -funsigned-char" ;;
+  m32)   # ILP32 (i386): no 32-bit C library in this sandbox, so the harness is linked against harness/mini32 (freestanding run-time);
+         # the kernel runs the binary natively - the core is EXECUTED with 32-bit size_t, long and pointers
+         FLAGS="-m32 -O1 -ffreestanding -nostdlib -static -nostdinc -fno-stack-protector -fno-pic -no-pie -I$HERE/mini32/include -I$(gcc -print-file-name=include)" ;;          # the ABI of ARM / AArch64 / PowerPC / RISC-V / Xtensa: plain char is unsigned
   *) echo "unknown variant $VARIANT" >&2; exit 2 ;;
 esac
 LOG="$OUT/build.log"; : > "$LOG"
@@ -36,7 +39,7 @@ BIN="$OUT/harness_$VARIANT"
 rm -f "$BIN"
 if ! $CC $COMMON $FLAGS $SIG $SV $ESP \
     "$CORE/lltdBlock.c" "$CORE/lltdTlvOps.c" "$CORE/lltdWire.c" "$CORE/lltdAutomata.c" $ESPSRC \
-    "$HERE/vport.c" "$HERE/main.c" "$HERE/yield_stub.c" -o "$BIN" >>"$LOG" 2>&1; then
+    "$HERE/vport.c" "$HERE/main.c" "$HERE/yield_stub.c" $( [ "$VARIANT" = m32 ] && echo "$HERE/mini32/mini32.c" ) -o "$BIN" >>"$LOG" 2>&1; then
   echo "BUILD-FAILED (see $LOG)" >&2
   exit 1
 fi
